@@ -109,6 +109,15 @@ theorem specStep_setVal_aw (A A' : AState) (chs : List (Option CHE)) (lhs : List
   simp only [liveH_aw A chs lhs h e he hc, hs, hc]
   rfl
 
+theorem specStep_getVal_aw (A : AState) (chs : List (Option CHE)) (lhs : List (Option LHE)) (h : Nat) (e : CHE)
+    (nm : Name) (v : V) (amb : Bool) (he : chs.getD h none = some e) (hc : e.cif = 0)
+    (hs : Store.specGetValue A e.h (some nm) = .ok (v, amb)) :
+    specStep (aw A chs lhs) (.getVal h (some nm)) =
+      some (aw A chs lhs, { rc := some (if amb = true then CIF_AMBIGUOUS_ITEM else CIF_OK), out := .value v }) := by
+  unfold specStep
+  simp only [liveH_aw A chs lhs h e he hc, hs, hc]
+  rfl
+
 /-! ### the world along the translated trace -/
 
 /-- the calls the composition theorem covers, given the call made just before: no save frames; a packet goes to the loop that the
@@ -419,6 +428,52 @@ theorem rep_setVal (o : Opts) (m : HMap) (w : World) (s : Store.Store) (last : O
     exact hr.hasH b' hb'
   · intro p hp; cases hp
 
+/-- **the value a recorded cif_container_set_value stores is read back identical from the composed state** (property C07, route
+    `parser`): in a world that represents the parser's target, after the call, cif_container_get_value on the same container handle
+    under the same name delivers the value — when the item is new (the parser's normal path: it stores only after
+    cif_container_get_item_loop said CIF_NOSUCH_ITEM), and, for an item the container already has, when its loop has a packet -/
+theorem rep_setVal_reads (o : Opts) (m : HMap) (w : World) (s : Store.Store) (last : Option SOp) (path : Path) (n : Str) (v : V) (h : Nat)
+    (hr : Rep o m w s last) (hm : m.ch path = some h) (hwf : (SOp.setVal path n v).wf) (hokr : OkR o (absS s.db).tree)
+    (hcase : ∀ cc, getIn o.norm path (absS s.db).tree = some cc →
+      hasItem o.norm cc (o.norm n) = false ∨
+        ∀ l ∈ cc.loops, (l.names.any fun x => o.norm x == o.norm n) = true → l.packets ≠ []) :
+    let sop := Store.Op.setVal h (some (mkName o true n)) (some v)
+    ∃ amb, (Store.step (Store.step w sop).1 (.getVal h (some (mkName o true n)))).2 =
+      { rc := some (if amb = true then CIF_AMBIGUOUS_ITEM else CIF_OK), out := .value v } := by
+  intro sop
+  obtain ⟨k, b, e, hpk, hb, he, h0, hid⟩ := hr.ch path h hm
+  subst hpk
+  obtain ⟨A', hspec, hinv', hblocks', htree'⟩ := sim_setVal o (absS s.db) hr.inv k b hb e.h hid n v hwf.1 hokr
+  have hin : Store.inContract w sop = true :=
+    okH_w w s hr.cifs hr.its h e he h0 (by rw [hid]; exact hasContainer_of o s hr.inv b hb.1)
+  have hst := specStep_setVal_aw (absS s.db) A' w.chs w.lhs h e _ _ he h0 hspec
+  obtain ⟨hres, hwok', s', hc', hA, hchs', hlhs', hits'⟩ := transfer w s sop _ _ _ _ hr.cifs hr.its hr.wok hin hst
+  -- the read
+  obtain ⟨hok, hrect⟩ := container_facts o (absS s.db) hr.inv b hb.1 hokr
+  have hread : ∃ amb, Store.specGetValue A' e.h (some (mkName o true n)) = .ok (v, amb) := by
+    cases hhas : (absS s.db).hasItem b.cid (o.norm n) with
+    | false => exact reads_new o (absS s.db) hr.inv b hb.1 e.h hid n v hwf.1 hok hrect hhas A' hspec
+    | true =>
+      obtain ⟨y, hym, hyc, hyk, hy⟩ := reads_existing o (absS s.db) hr.inv b e.h hid n v hwf.1 hok hrect hhas
+      apply hy _ A' hspec
+      rcases hcase _ (getIn_block o (absS s.db) hr.inv k b hb) with h1 | h1
+      · rw [hasItem_tree o (absS s.db) hr.inv b, hhas] at h1; cases h1
+      · have hyL : y.toLoop ∈ (blkTree (absS s.db) b).loops :=
+          List.mem_map_of_mem (List.mem_filter.mpr ⟨hym, by simp [hyc]⟩)
+        have := h1 _ hyL (by rw [names_toLoop_any o y (hr.inv.itemNorm y hym)]; exact hyk)
+        exact this
+  obtain ⟨amb, hamb⟩ := hread
+  refine ⟨amb, ?_⟩
+  have he' : (Store.step w sop).1.chs.getD h none = some e := by rw [hchs']; exact he
+  have hin2 : Store.inContract (Store.step w sop).1 (.getVal h (some (mkName o true n))) = true := by
+    apply okH_w _ s' hc' hits' h e he' h0
+    have hb' : b ∈ (absS s'.db).blocks := by rw [hA, hblocks']; exact hb.1
+    rw [hid]
+    exact hasContainer_of o s' (by rw [hA]; exact hinv') b hb'
+  have hst2 := specStep_getVal_aw (absS s'.db) (Store.step w sop).1.chs (Store.step w sop).1.lhs h e _ v amb he' h0 (by rw [hA]; exact hamb)
+  obtain ⟨hres2, _⟩ := transfer (Store.step w sop).1 s' _ _ _ _ _ hc' hits' hwok' hin2 hst2
+  exact hres2
+
 /-- **one recorded call** made in a state that meets what the parser side proves of every call (`docOk`, `wf`) and is `covered`:
     in contract, CIF_OK, and the new world represents `op.apply` of the tree -/
 theorem rep_step (o : Opts) (m : HMap) (w : World) (s : Store.Store) (last : Option SOp) (op : SOp) (sop : Store.Op) (m' : HMap)
@@ -677,5 +732,50 @@ theorem storeOps_total (o : Opts) (pol : Lexer.Policy) (units : Str) (hnf : noFr
     (fun k op hk => trace_paths_resolve o pol [] units k op hk)
     (storeTrace_wf o pol [] units) hcov
   exact ⟨Store.Op.cifNew :: sops, by unfold storeOps; rw [hs]; rfl⟩
+
+theorem coveredFrom_take : ∀ (tr : List SOp) (last : Option SOp) (j : Nat), coveredFrom last tr = true → coveredFrom last (tr.take j) = true
+  | [], _, _, _ => by simp [coveredFrom]
+  | _ :: _, _, 0, _ => rfl
+  | op :: r, last, j + 1, h => by
+    simp only [coveredFrom, Bool.and_eq_true] at h
+    simp only [List.take_succ_cons, coveredFrom, h.1, coveredFrom_take r (some op) j h.2, Bool.and_self]
+
+/-- **every state a frame-free parse passes through is represented**: after the first `j` recorded calls (any `j`), translated and run
+    through `Store.step` from the world after cif_create, the world satisfies `Rep` and shows the replay of those `j` calls -/
+theorem prefix_rep (o : Opts) (pol : Lexer.Policy) (units : Str) (hnf : noFrames (storeTrace o pol [] units) = true) (j : Nat) :
+    ∃ sops m s last, storeOpsFrom o {} ((storeTrace o pol [] units).take j) = some sops ∧
+      Rep o m (Store.run (Store.step {} .cifNew).1 sops).1 s last ∧
+      (absS s.db).tree = ((storeTrace o pol [] units).take j).foldl (fun c op => op.apply o c) [] := by
+  have hcov := coveredFrom_take _ none j (coveredFrom_of _ none hnf (trace_shaped o pol [] units))
+  have hokr : OkR o ([] : Cif) := ⟨⟨by simp [normCodes], by simp [OkCs]⟩, by simp [RectCif, RectCs]⟩
+  have hget : ∀ (k : Nat) (op : SOp), ((storeTrace o pol [] units).take j)[k]? = some op →
+      (storeTrace o pol [] units)[k]? = some op ∧ ((storeTrace o pol [] units).take j).take k = (storeTrace o pol [] units).take k := by
+    intro k op hk
+    rw [List.getElem?_take] at hk
+    split at hk
+    · rename_i hlt
+      exact ⟨hk, by rw [List.take_take, Nat.min_eq_left (Nat.le_of_lt hlt)]⟩
+    · cases hk
+  have h1 : ∀ k : Nat, OkR o ((((storeTrace o pol [] units).take j).take k).foldl (fun c op => op.apply o c) (absS ({} : Store.Store).db).tree) := by
+    intro k
+    rw [List.take_take]
+    exact trace_prefix_okR o pol [] units hokr _
+  have h2 : ∀ (k : Nat) (op : SOp), ((storeTrace o pol [] units).take j)[k]? = some op →
+      op.docOk o ((((storeTrace o pol [] units).take j).take k).foldl (fun c op => op.apply o c) (absS ({} : Store.Store).db).tree) := by
+    intro k op hk
+    obtain ⟨hk', he⟩ := hget k op hk
+    rw [he]
+    exact trace_calls_docOk o pol [] units hokr k op hk'
+  have h3 : ∀ (k : Nat) (op : SOp), ((storeTrace o pol [] units).take j)[k]? = some op →
+      op.resOk o ((((storeTrace o pol [] units).take j).take k).foldl (fun c op => op.apply o c) (absS ({} : Store.Store).db).tree) := by
+    intro k op hk
+    obtain ⟨hk', he⟩ := hget k op hk
+    rw [he]
+    exact trace_paths_resolve o pol [] units k op hk'
+  have h4 : ∀ op ∈ (storeTrace o pol [] units).take j, op.wf :=
+    fun op hop => storeTrace_wf o pol [] units op (List.mem_of_mem_take hop)
+  obtain ⟨sops, hs⟩ := run_sim' o _ {} (Store.step {} .cifNew).1 {} none (rep_start o) h1 h2 h3 h4 hcov
+  obtain ⟨_, _, s', m', last', hr', ht'⟩ := run_sim o _ {} (Store.step {} .cifNew).1 {} none sops (rep_start o) h1 h2 h4 hcov hs
+  exact ⟨sops, m', s', last', hs, hr', ht'⟩
 
 end CifModel.ParserSim
